@@ -6,7 +6,8 @@ import ast
 from .. import anchors as A
 from ..model import AnalysisError, FuncInfo, Project, walk_local, call_name, kwarg, resolved_call_name
 from ..consteval import try_fold
-from ..paths import PState, run_paths, subst_text
+from ..flow import ANY_EXC
+from ..paths import PState, calls_in_order, run_paths, subst_text
 from ..report import Report
 
 
@@ -176,6 +177,45 @@ def check(P: Project, R: Report) -> None:
         in_handler = any(node is x for t_ in walk_local(fi.node) if isinstance(t_, ast.Try) for h_ in t_.handlers for b_ in h_.body for x in walk_local(b_))
         if tag == "VersionMismatchError" and isinstance(node, ast.Raise) and any(e.startswith("request:") for e in st.events) and not in_handler and not any(l.startswith("hasattr(") for l in st.lits):
             R.ob("R2", "mismatch is raised only without acceptance", not accepted(st, an), f"{fi.module.rel}:{node.lineno}", "")
+    # … and once the answer has failed the acceptance test nothing but the mismatch error can leave the routine:
+    # diagnostics computed on the way to the raise (a comparison of versions, a formatted explanation) must not be able to raise
+    def rejected(st: PState, an_) -> bool:
+        n_ = 0
+        for l in st.lits:
+            try:
+                node_ = ast.parse(l, mode="eval").body
+            except SyntaxError:
+                continue
+            if isinstance(node_, ast.Compare) and len(node_.ops) == 1 and isinstance(node_.ops[0], (ast.NotEq, ast.NotIn)):
+                for side in (node_.left, node_.comparators[0]):
+                    o_ = an_.origin(ast.unparse(side))
+                    if "send_message(" in o_ and "protocolVersion" in o_ and "model_validate" in o_:
+                        n_ += 1
+                        break
+        return n_ >= 2
+
+    # (explicit-raise model: a package function reached from the rejecting branch counts as able to raise when it — or
+    # something it calls — contains a `raise` no handler of its own catches; plain total code does not)
+    from ..summaries import raises_explicitly
+
+    def rej_pred(node_, st_, an_):
+        for c_ in calls_in_order(node_):
+            g_ = P.resolve_call(fi, c_)
+            if isinstance(g_, FuncInfo) and g_ is not fi and raises_explicitly(P, g_):
+                return {ANY_EXC}
+        return set()
+
+    an_r, out_r = run_paths(fi.node, event_of=event_of, fallible_pred=rej_pred)
+    an_r.parents = an.parents
+    n_rej = 0
+    for st, tag, node in out_r.exc:
+        if not rejected(st, an_r) or accepted(st, an_r):
+            continue
+        n_rej += 1
+        R.ob("R2", "an answer outside the caller's list ends in VersionMismatchError and nothing else", tag.split(".")[-1] in ("VersionMismatchError", "Cancelled"), f"{fi.module.rel}:{getattr(node, 'lineno', 0)}",
+             f"after the answer failed the acceptance test `{ast.unparse(node)[:70]}` can raise {tag}: the caller gets that exception instead of the version-mismatch error",
+             sample="R2 rejected answer → raise VersionMismatchError")
+    R.need(n_rej >= 1, "anchor: no raising path after a failed acceptance test")
     # not in a loop
     for c in walk_local(fi.node):
         if isinstance(c, ast.Call) and call_name(c) == notif_sender.name:
